@@ -242,7 +242,7 @@ func checkC06(c *km.Ctx) {
 	checkWebUIMask(c, s)
 	checkCSRF(c, s, checkAuth)
 	checkKeymasterSigned(c, s, "R-C06-4")
-	checkConfigKeys(c, "R-C06-4", "the key deny list", "AppConfigFile.DenyTrustData", "DenyKeyConfig.")
+	checkConfigKeys(c, "R-C06-4", "the key deny list", "denytrustdata")
 	checkAuthBits(c, s, checkAuth, "R-C06-5")
 	checkIPCodec(c, s, "R-C06-6")
 	checkExtractRequiresExtension(c, s, "R-C06-6")
